@@ -93,7 +93,28 @@ def materialise(spec, path: bytes):
         elif t == "link":
             os.symlink(unhx(node["target"]), p)
         elif t == "special":
-            os.mkfifo(p, node["mode"])
+            # a named pipe, a character device (needs CAP_MKNOD: falls back to a pipe) or a socket,
+            # chosen from the mode so that a spec stays a plain description
+            sub = node.get("sub") or ("fifo", "chr", "sock")[(node["mode"] >> 3) % 3]
+            made = False
+            if sub == "chr":
+                try:
+                    os.mknod(p, stat.S_IFCHR | node["mode"], os.makedev(1, 3))
+                    made = True
+                except (PermissionError, OSError):
+                    pass
+            elif sub == "sock" and len(p) < 100:
+                import socket
+
+                try:
+                    sk = socket.socket(socket.AF_UNIX)
+                    sk.bind(p)
+                    sk.close()
+                    made = True
+                except OSError:
+                    pass
+            if not made:
+                os.mkfifo(p, node["mode"])
             os.chmod(p, node["mode"])
         else:
             materialise(node, p)
